@@ -3,6 +3,7 @@ CONSTANTS
   Writer = {"w1", "w2", "w3"}
   NFrames <- NF3
   Weak = {}
+  PieceLen = 1
 INVARIANTS InOrder Contiguous
 VIEW View
 CHECK_DEADLOCK FALSE
